@@ -86,3 +86,54 @@ Theorem C02_attempts_only_for_stored : forall relay bs k,
   exists d, nth_error bs (N.to_nat k) = Some (Done d WId).
 Proof. exact attempts_only_for_stored. Qed.
 Print Assumptions C02_attempts_only_for_stored.
+
+(* ---- several messages in flight on one Queue (any mix of SMTP and WSGI
+   clients, any schedule of their steps, policies that yield): when message i is
+   answered 2xx, every envelope of message i itself has been written, earlier in
+   the global trace; the answer is the one of i's own sequential run. *)
+Theorem C02_concurrent_smtp_2xx_implies_own_stored : forall relay msgs sched g1 g2 i c,
+  concurrent_run relay msgs sched = g1 ++ (i, EvSmtpReply c) :: g2 ->
+  exists m, nth_error msgs (N.to_nat i) = Some m /\ m_edge m = ESmtp /\
+    snd (smtp_run relay (m_bs m)) = Replied c /\
+    (class2 c = true ->
+       m_bs m <> [] /\
+       forall k b, nth_error (m_bs m) k = Some b ->
+         exists d, b = Done d WId /\ In (i, EvWriteDone (N.of_nat k)) g1).
+Proof. exact concurrent_smtp_own. Qed.
+Print Assumptions C02_concurrent_smtp_2xx_implies_own_stored.
+
+Theorem C02_concurrent_wsgi_2xx_implies_own_stored : forall relay msgs sched g1 g2 i s,
+  concurrent_run relay msgs sched = g1 ++ (i, EvHttpStatus s) :: g2 ->
+  exists m, nth_error msgs (N.to_nat i) = Some m /\ m_edge m = EWsgi /\
+    snd (wsgi_run relay (m_bs m)) = Replied s /\
+    (s / 100 = 2 ->
+       m_bs m <> [] /\
+       forall k b, nth_error (m_bs m) k = Some b ->
+         exists d, b = Done d WId /\ In (i, EvWriteDone (N.of_nat k)) g1).
+Proof. exact concurrent_wsgi_own. Qed.
+Print Assumptions C02_concurrent_wsgi_2xx_implies_own_stored.
+
+(* Non-interference the per-client correspondence relies on: the answer given to
+   message i is a function of i's own policy yields / write behaviours only -
+   the same in every company (msgs, msgs') and under every schedule - and what
+   message i did in a concurrent run is a prefix of its own sequential run. *)
+Theorem C02_ack_depends_on_own_envelopes : forall relay msgs msgs' sched sched' i m,
+  nth_error msgs (N.to_nat i) = Some m -> nth_error msgs' (N.to_nat i) = Some m ->
+  (forall c, In (i, EvSmtpReply c) (concurrent_run relay msgs sched) ->
+             In (i, EvSmtpReply c) (concurrent_run relay msgs' sched') ->
+             snd (smtp_run relay (m_bs m)) = Replied c) /\
+  (forall c c', In (i, EvSmtpReply c) (concurrent_run relay msgs sched) ->
+                In (i, EvSmtpReply c') (concurrent_run relay msgs' sched') -> c = c') /\
+  (forall s s', In (i, EvHttpStatus s) (concurrent_run relay msgs sched) ->
+                In (i, EvHttpStatus s') (concurrent_run relay msgs' sched') -> s = s').
+Proof. exact ack_depends_on_own_envelopes. Qed.
+Print Assumptions C02_ack_depends_on_own_envelopes.
+
+Theorem C02_concurrent_projection_is_own_run : forall relay msgs sched i m,
+  nth_error msgs (N.to_nat i) = Some m ->
+  exists rest, msg_trace relay m = project i (concurrent_run relay msgs sched) ++ rest.
+Proof.
+  intros relay msgs sched i m H. unfold concurrent_run.
+  apply project_prefix. rewrite nth_error_map, H. reflexivity.
+Qed.
+Print Assumptions C02_concurrent_projection_is_own_run.
